@@ -395,7 +395,8 @@ func (vs *ValidatorStore) GetEndBlockUpdate(ctx *ValidatorContext, req types.Req
 	total, err := ctx.FeePool.Get([]byte(fees.POOL_KEY))
 	if err != nil {
 		logger.Fatal("failed to get the total fee pool")
-	} else if ctx.FeePool.GetOpt().MinFee().LessThanCoin(total) {
+	} else if ctx.FeePool.GetOpt().MinFee().LessThanCoin(total) && vs.totalPower > 0 {
+		// fee shares are proportional to power, there is nobody to pay when the total power is zero
 		distribute = true
 	}
 	stakingOptions, err := ctx.Govern.GetStakingOptions()
